@@ -44,7 +44,7 @@ func modeSpec(mode string) (ProcSpec, string) {
 }
 
 // scenariosFromModel turns emitted histories into bulk scenarios (MatchSnapshot with string values).
-func scenariosFromModel(hs []*ModelHist, seed int64, tag string) []*Scenario {
+func scenariosFromModel(hs []*ModelHist, seed int64, tag string, api string) []*Scenario {
 	r := rand.New(rand.NewSource(seed))
 	g := newFgen(seed+17, tag)
 	var out []*Scenario
@@ -60,7 +60,9 @@ func scenariosFromModel(hs []*ModelHist, seed int64, tag string) []*Scenario {
 			if h.Init.NL {
 				content += "\n"
 			}
-			sc.Init = append(sc.Init, InitFile{P: "snaps/main_test.snap", Content: []byte(content), Role: "multi"})
+			if api == "snapshot" {
+				sc.Init = append(sc.Init, InitFile{P: "snaps/main_test.snap", Content: []byte(content), Role: "multi"})
+			}
 		}
 		spec, cfg := modeSpec("create")
 		cur := &Proc{Spec: spec}
@@ -89,7 +91,7 @@ func scenariosFromModel(hs []*ModelHist, seed int64, tag string) []*Scenario {
 				for i, l := range op.V {
 					ls[i] = conc(l)
 				}
-				cur.Steps = append(cur.Steps, &Step{Op: "match", Name: op.T, API: "snapshot", Cfg: cfg, Val: strVal(strings.Join(ls, "\n"))})
+				cur.Steps = append(cur.Steps, &Step{Op: "match", Name: op.T, API: api, Cfg: cfg, Val: strVal(strings.Join(ls, "\n"))})
 				shape = append(shape, "match")
 			}
 		}
@@ -97,7 +99,7 @@ func scenariosFromModel(hs []*ModelHist, seed int64, tag string) []*Scenario {
 		for t := range prog {
 			sc.Program = append(sc.Program, t)
 		}
-		sc.Note = fmt.Sprintf("TLC-generated history %v", shape)
+		sc.Note = fmt.Sprintf("TLC-generated history via %s %v", api, shape)
 		out = append(out, sc)
 	}
 	return out
